@@ -5,7 +5,7 @@ use crate::model::Model;
 use crate::proto::{guarded, hex, hexs, unhex, Sink};
 use crate::rng::Rng;
 use crate::Cfg;
-use in_toto::crypto::{KeyType, PublicKey, SignatureScheme};
+use in_toto::crypto::{PrivateKey, KeyType, PublicKey, SignatureScheme};
 use in_toto::models::{LayoutMetadata, LayoutMetadataBuilder};
 use serde_json::{json, Value};
 
@@ -158,7 +158,7 @@ pub fn run(cfg: &Cfg) {
         }
     }
     // fixture SPKIs written by openssl (rsa, ecdsa) must equal the model's standard encoding
-    for (file, t) in [("rsa-2048.spki.der", "rsa"), ("rsa-3072.spki.der", "rsa"), ("rsa-4096.spki.der", "rsa"), ("rsa-8192.spki.der", "rsa"), ("ec.spki.der", "ecdsa")] {
+    for (file, t) in [("rsa-2048.spki.der", "rsa"), ("rsa-3072.spki.der", "rsa"), ("rsa-4096.spki.der", "rsa"), ("rsa-8192.spki.der", "rsa"), ("rsa-2048-e80000003.spki.der", "rsa"), ("ec.spki.der", "ecdsa")] {
         let der = std::fs::read(keys_dir().join(file)).unwrap();
         let k = match guarded({ let d = der.clone(); move || PublicKey::from_spki(&d, scheme_for(t)) }) {
             Ok(Ok(k)) => k,
@@ -171,6 +171,17 @@ pub fn run(cfg: &Cfg) {
         let std = model.ask(&format!("spki_enc {} {}", t, hex(k.as_bytes())));
         sink.oracle(std == hex(&der), "the model's standard SPKI differs from the openssl-written fixture", file);
         spki_dec_case(&mut sink, &mut model, &der, "fixture");
+        // the same key derived from its private half (when the fixture has one) is the same key
+        let pk8 = keys_dir().join(file.replace(".spki.der", ".pk8.der"));
+        if let Ok(pk8_bytes) = std::fs::read(&pk8) {
+            if let Ok(Ok(private)) = guarded({ let b = pk8_bytes.clone(); move || PrivateKey::from_pkcs8(&b, scheme_for(t)) }) {
+                sink.oracle(keyid_hex(private.public()) == keyid_hex(&k) && *private.public() == k && private.public().as_bytes() == k.as_bytes(),
+                    "the public key derived from a private key differs from the same key imported from its SubjectPublicKeyInfo", file);
+                if let Ok(sig) = private.sign(b"message") {
+                    sink.oracle(k.verify(b"message", &sig).is_ok(), "a signature by a private key does not verify under its imported public key", file);
+                }
+            }
+        }
         // every construction path of the public key alone (covers sizes the library cannot sign with)
         keyid_case(&mut sink, &k, "fixture");
         let id = keyid_hex(&k);
